@@ -458,7 +458,9 @@ def _il_oracle(case):
                     out.append(Disc('interlingual:lowest-not-among-common',
                                     f'lowest_common_hypernyms({a.key},{b.key})',
                                     {'nonempty subset of': exp}, sorted(lk)))
-    if out:
+    if out or case['selection'] != 'L:1':
+        # (in default mode a lexicon and its extensions act like several selected lexicons: wn
+        # tells apart placeholders of one ILI by the lexicon they were created from - DESIGN 8)
         return out
     # shortest_path between any two nodes of the mapped graph, placeholders included: the
     # objects are the ones wn itself hands out on hypernym paths
